@@ -36,6 +36,7 @@ var c11JobSettings = []c11Frag{
 	{"metric-relabel", "  metric_relabel_configs:\n  - {source_labels: [__name__], regex: \"go_.*\", action: drop}\n  - {regex: \"tmp.*\", action: labeldrop}\n"},
 	{"relabel", "  relabel_configs:\n  - {source_labels: [__address__], target_label: lab, replacement: \"v\"}\n"},
 	{"https", "  scheme: https\n"},
+	{"own-proxy", "  proxy_url: http://proxyuser:pw@egress.corp.example:3128\n"},
 }
 
 const (
@@ -454,6 +455,34 @@ func init() {
 					}
 				}
 			}
+		}
+		// YAML anchors and aliases, within one section and across sections (the anchor may sit in a scrape job and
+		// be used by a section that is not a scrape job, or the other way round)
+		for k, at := range []struct {
+			name, text string
+			secrets    []string
+		}{
+			{"anchor-in-job-alias-in-remote-write", "scrape_configs:\n- job_name: j1\n  basic_auth: &cred\n    username: u\n    password: ANCHORED-1\n  static_configs:\n  - targets: [\"a:1\", \"b:2\"]\n- job_name: j2\n  static_configs:\n  - targets: [\"z:9\"]\nremote_write:\n- url: http://rw/w\n  basic_auth: *cred\n", []string{"ANCHORED-1"}},
+			{"anchor-and-alias-in-remote-write", "remote_write:\n- url: http://rw1/w\n  basic_auth: &cred\n    username: w\n    password: ANCHORED-2\n- url: http://rw2/w\n  basic_auth: *cred\nscrape_configs:\n- job_name: j1\n  static_configs:\n  - targets: [\"a:1\", \"b:2\"]\n- job_name: j2\n  static_configs:\n  - targets: [\"z:9\"]\n", []string{"ANCHORED-2"}},
+			{"anchor-in-remote-write-alias-in-job", "remote_write:\n- url: http://rw1/w\n  basic_auth: &cred\n    username: w\n    password: ANCHORED-3\nscrape_configs:\n- job_name: j1\n  basic_auth: *cred\n  static_configs:\n  - targets: [\"a:1\", \"b:2\"]\n- job_name: j2\n  static_configs:\n  - targets: [\"z:9\"]\n", []string{"ANCHORED-3"}},
+			{"anchor-in-job-alias-in-alerting-and-remote-read", "scrape_configs:\n- job_name: j1\n  tls_config: &tls\n    insecure_skip_verify: true\n    server_name: sn\n  static_configs:\n  - targets: [\"a:1\", \"b:2\"]\n- job_name: j2\n  static_configs:\n  - targets: [\"z:9\"]\nalerting:\n  alertmanagers:\n  - tls_config: *tls\n    static_configs:\n    - targets: [\"am:9093\"]\nremote_read:\n- url: http://rr/r\n  tls_config: *tls\n", nil},
+		} {
+			idx++
+			if !c.Mine(idx) {
+				continue
+			}
+			for _, mon := range []bool{false, true} {
+				gen, fs := c11Check(at.text, 2, mon, at.secrets)
+				r.States++
+				r.Transitions++
+				r.Nontrivial++
+				r.Outcome(chk.Digest(gen))
+				for _, f := range fs {
+					r.Violate(f.Sig+":"+at.name, f.Clause, fmt.Sprintf("[%s monitor=%v] %s", at.name, mon, f.Detail), idx,
+						&c11Replay{Property: "C11", Clause: f.Clause, Config: at.text, Assign: 2, Monitor: mon, Generated: gen, Detail: f.Detail})
+				}
+			}
+			_ = k
 		}
 		// a configuration that already has a job named like the self-monitoring job: the generated file is still
 		// a valid configuration with the original jobs in their order
